@@ -1,4 +1,145 @@
-import GristModel.Recalc
+/-
+C18  Circular references terminate and are reported on the cycle.
+Model: GristModel/Recalc.lean.  Helper lemmas: GristProofs/Recalc*.lean.
+
+Standing notions (GristProofs/RecalcBase.lean):
+  `WFState p n st`      dirty cells are formula cells `< n`, listed once; `deps` of cells `< n` are `< n`
+  `Good p st c`         no cell read by `c` is dirty ∧ `σ c = f c σ`
+  `DependsOnSelf p n c` `onCycle p n (fun _ => true) c = true`  (`c` reaches itself through `deps`)
+  `Inv p n st`          every clean formula cell `c < n` is `Good`, or `σ c = circ ∧ DependsOnSelf`
+  `Ev.isCalc`           the event is an `eval` or a `circ`
+-/
+import GristProofs.RecalcExamples
+import GristProofs.RecalcCex
+import GristProofs.RecalcStrong
 namespace Grist.Recalc
-theorem placeholder_C18 : True := trivial
+
+/-! ### (T1) termination -/
+
+/-- an `eval` or `circ` step strictly decreases the number of dirty cells -/
+theorem step_dirty_decreases {p : Prog} {n : Nat} {st st' : State} {e : Ev}
+    (he : e.isCalc = true) (h : step p n st e = some st') :
+    st'.dirty.length < st.dirty.length :=
+  calc_step_dirty_decreases he h
+
+/-- an accepted run of eval/circ events is no longer than the number of dirty cells it starts with
+    (so there is no infinite run) -/
+theorem run_length_bound {p : Prog} {n : Nat} {st st' : State} {es : List Ev}
+    (hes : ∀ e ∈ es, e.isCalc = true) (h : run p n st es = some st') :
+    es.length ≤ st.dirty.length := by
+  have := calc_run_length es hes h; omega
+
+example : run cycProg 4 cycSt [.eval 2, .circ 0, .eval 1] ≠ none := by decide
+
+/-! ### (T2) progress: the engine's "not making progress" exceptions are unreachable -/
+
+/-- while cells are dirty, some `eval` or some `circ` event is enabled
+    (`Respects` is not needed for this) -/
+theorem progress {p : Prog} {n : Nat} {st : State} (hw : WFState p n st) (hne : st.dirty ≠ []) :
+    ∃ c, (step p n st (.eval c)).isSome = true ∨ (step p n st (.circ c)).isSome = true :=
+  progress_exists hw hne
+
+/-- hence every well-formed state has a complete run: eval/circ events leading to `dirty = []` -/
+theorem complete_run {p : Prog} {n : Nat} {st : State} (hw : WFState p n st) :
+    ∃ es st', (∀ e ∈ es, e.isCalc = true) ∧ run p n st es = some st' ∧ st'.dirty = [] :=
+  complete_run_exists st.dirty.length st (Nat.le_refl _) hw
+
+example : ∃ c, (step cycProg 4 cycSt (.eval c)).isSome = true ∨
+    (step cycProg 4 cycSt (.circ c)).isSome = true := progress cycSt_wf (by decide)
+
+/-! ### (T3) the cycle branch fires only on a dependency cycle -/
+
+theorem circ_only_on_cycle {p : Prog} (hr : p.Respects) {n : Nat} {st : State} {c : Nat}
+    (h : (step p n st (.circ c)).isSome = true) :
+    reaches p (fun _ => true) n c c = true := by
+  obtain ⟨st', h'⟩ := Option.isSome_iff_exists.mp h
+  obtain ⟨⟨_, hf, _, hb⟩, _⟩ := step_circ_iff.mp h'
+  exact reaches_of_blockCycle hr n c hf hb
+
+/-- in the example the 2-cycle cell 0 may take the cycle branch, the acyclic cell 2 may not -/
+example : (step cycProg 4 cycSt (.circ 0)).isSome = true ∧
+    (step cycProg 4 cycSt (.circ 2)).isSome = false ∧
+    reaches cycProg (fun _ => true) 4 0 0 = true := by decide
+
+/-! ### (T4) what a quiescent state looks like -/
+
+/-- An accepted run (any events, also writes) from a well-formed state satisfying the invariant
+    that ends with `dirty = []`: every formula cell equals its formula's value in the final store,
+    or holds `circ` and lies on a dependency cycle. -/
+theorem quiescent_fixpoint {p : Prog} (hr : p.Respects) {n : Nat} {st0 st : State} {es : List Ev}
+    (hw : WFState p n st0) (hi : Inv p n st0) (h : run p n st0 es = some st)
+    (hq : st.dirty = []) :
+    ∀ c, c < n → p.formula c = true →
+      st.σ c = p.f c st.σ ∨ (st.σ c = V.circ ∧ reaches p (fun _ => true) n c c = true) :=
+  inv_quiescent (inv_run hr es hw hi h).1 hq
+
+example : ∃ st, run cycProg 4 cycSt [.eval 2, .circ 0, .eval 1] = some st ∧ st.dirty = [] ∧
+    st.σ 0 = V.circ ∧ st.σ 1 = V.circ ∧ st.σ 2 = V.num 6 :=
+  ⟨_, rfl, by decide, by decide, by decide, by decide⟩
+
+/-! ### (T4, strong form) `σ c = f c σ` for ALL formula cells
+
+False for the model as written: `Respects` does not say in which order cells are read, so the first
+dirty read (which drives the cycle detection) need not be the read that decides what else is read. -/
+
+/-- counterexample: `cexProg` satisfies `Respects` and `Strict`, the run is accepted from the
+    all-dirty state and ends quiescent, yet cell 0 holds `circ` while its formula evaluates to 7 -/
+example : cexProg.Respects ∧ cexProg.Strict ∧ WFState cexProg 4 cexSt ∧ Inv cexProg 4 cexSt ∧
+    ∃ st, run cexProg 4 cexSt [.circ 0, .eval 2, .eval 1] = some st ∧ st.dirty = [] ∧
+      st.σ 0 = V.circ ∧ cexProg.f 0 st.σ = V.num 7 :=
+  ⟨cexProg_respects, cexProg_strict, ⟨by decide, by decide, by decide⟩,
+   Inv.of_all_dirty (by decide), _, rfl, by decide, by decide, by decide⟩
+
+/-- The strong form holds for recalculation runs (eval/circ events) of programs that moreover read
+    cell after cell (`PrefixDet`: having read the same values so far, the same cell is read next),
+    from a state with the strengthened invariant `Inv2` (clean cells are good, or hold `circ` and
+    are *doomed*: through clean read-prefixes they reach a clean `circ` cell or a dirty doomed
+    cell); `Inv2` holds e.g. when every formula cell is dirty (document load). -/
+theorem quiescent_fixpoint_strong_partial {p : Prog} (hr : p.Respects) (hs : p.Strict)
+    (hp : p.PrefixDet) {n : Nat} {st0 st : State} {es : List Ev} (hi : Inv2 p n st0)
+    (hes : ∀ e ∈ es, e.isCalc = true) (h : run p n st0 es = some st) (hq : st.dirty = []) :
+    ∀ c, c < n → p.formula c = true → st.σ c = p.f c st.σ :=
+  inv2_quiescent hs (inv2_calc_run hr hs hp es hes hi h) hq
+
+/-- the same for arbitrary accepted runs (writes included) from a well-formed state with both
+    invariants (e.g. the all-dirty state of a document load, followed by any history) -/
+theorem quiescent_fixpoint_strong_partial_runs {p : Prog} (hr : p.Respects) (hs : p.Strict)
+    (hp : p.PrefixDet) {n : Nat} {st0 st : State} {es : List Ev} (hw : WFState p n st0)
+    (hi : Inv p n st0) (hi2 : Inv2 p n st0) (h : run p n st0 es = some st) (hq : st.dirty = []) :
+    ∀ c, c < n → p.formula c = true → st.σ c = p.f c st.σ :=
+  inv2_quiescent hs (inv2_run hr hs hp es hw hi hi2 h) hq
+
+/-- load, recalc (cycle reported), then a data write and another recalc -/
+example : ∃ st, run cycProg 4 cycSt [.eval 2, .circ 0, .eval 1, .write 3 (.num 8), .eval 2]
+      = some st ∧ st.dirty = [] ∧ st.σ 2 = V.num 9 ∧
+    ∀ c, c < 4 → cycProg.formula c = true → st.σ c = cycProg.f c st.σ :=
+  ⟨_, rfl, by decide, by decide, quiescent_fixpoint_strong_partial_runs (st0 := cycSt)
+    (es := [.eval 2, .circ 0, .eval 1, .write 3 (.num 8), .eval 2]) cycProg_respects
+    cycProg_strict (sumProg_prefixDet _ _ _) cycSt_wf cycSt_inv (Inv2.of_all_dirty (by decide))
+    rfl (by decide)⟩
+
+theorem sumProg_prefixDet' (formula : Nat → Bool) (deps : Nat → List Nat) (konst : Nat → Int) :
+    (sumProg formula deps konst).PrefixDet := sumProg_prefixDet formula deps konst
+
+example : ∃ st, run cycProg 4 cycSt [.eval 2, .circ 0, .eval 1] = some st ∧
+    ∀ c, c < 4 → cycProg.formula c = true → st.σ c = cycProg.f c st.σ :=
+  ⟨_, rfl, quiescent_fixpoint_strong_partial (st0 := cycSt) (es := [.eval 2, .circ 0, .eval 1]) cycProg_respects
+    cycProg_strict (sumProg_prefixDet _ _ _) (Inv2.of_all_dirty (by decide)) (by decide) rfl
+    (by decide)⟩
+
+/-! ### (T5) the instance the harness uses -/
+
+theorem sumProg_respects' (formula : Nat → Bool) (deps : Nat → List Nat) (konst : Nat → Int) :
+    (sumProg formula deps konst).Respects := sumProg_respects formula deps konst
+
+theorem sumProg_strict' (formula : Nat → Bool) (deps : Nat → List Nat) (konst : Nat → Int) :
+    (sumProg formula deps konst).Strict := sumProg_strict formula deps konst
+
+/-- the deterministic scheduler on the 4-cell document with a 2-cycle -/
+example : (schedule cycProg 4 [0, 1, 2, 3] 4 cycSt).1 = [.eval 2, .circ 0, .eval 1] ∧
+    (schedule cycProg 4 [0, 1, 2, 3] 4 cycSt).2.dirty = [] ∧
+    (schedule cycProg 4 [0, 1, 2, 3] 4 cycSt).2.σ 0 = V.circ ∧
+    (schedule cycProg 4 [0, 1, 2, 3] 4 cycSt).2.σ 1 = V.circ ∧
+    (schedule cycProg 4 [0, 1, 2, 3] 4 cycSt).2.σ 2 = V.num 6 := by decide
+
 end Grist.Recalc
